@@ -10,7 +10,7 @@
    mixture.  The rest is modelled by hand from _thermo.py (__init__ :127/:288, extended :167, subset :174/:302,
    ideal :198/:323) and tied by the `pkg` / `pkghist` correspondence cases. *)
 From Coq Require Import List Bool.
-From V Require Import C07.Gen_Packages.
+From V Require Import C07.Gen_Packages C07.Model C07.Gen_Rewire.
 Import ListNotations.
 
 Section Pk.
@@ -26,7 +26,12 @@ Section Pk.
   | PSubset (i : nat) (sel : list nat)       (* store.append(store[i].subset(sel)) with a new list of chemicals *)
   | PExtended (i : nat) (extra : list nat)   (* store.append(store[i].extended(extra)) *)
   | PIdeal (i : nat)                         (* store.append(store[i].ideal()) *)
-  | PChem (f : St -> St).                    (* anything done to the chemicals (setters, resets, copies, ...) *)
+  | PChem (f : St -> St)                     (* anything done to the chemicals (setters, resets, copies, ...) *)
+  (* pickle.loads(pickle.dumps(store[i])) (also copy.deepcopy, tmo.utils.save/load): the package, its mixture and its
+     chemicals travel in ONE pickle, whose memo preserves the sharing between them.  g adds the loaded chemicals to the
+     store (old chemical c becomes chemical ren c) with copies of the very same objects; rb is what unpickle_chemical does
+     in addition when it rebuilds the functors of each loaded chemical (generated: unpickle_rebuilds_functors) *)
+  | PLoad (i : nat) (ren : nat -> nat) (g rb : St -> St).
 
   (* <Mixture>.from_chemicals(cs) in store state st *)
   Definition build_models (st : St) (cs : list nat) : list (nat * option St) :=
@@ -55,6 +60,20 @@ Section Pk.
                                 else mkPkg true (p_chems p) []])
         | None => s
         end
+    | PLoad i ren g rb =>
+        match nth_error ps i with
+        | Some p =>
+            let st' := if unpickle_rebuilds_functors then rb (g st) else g st in
+            let refresh (e : nat * option St) :=
+              match snd e with
+              | Some s => if same (fst e) s st && same (fst e) st st' then (fst e, Some st') else e
+              | None => e
+              end in
+            (st', map (fun q => mkPkg (p_ideal q) (p_chems q) (map refresh (p_models q))) ps
+                  ++ [mkPkg (p_ideal p) (map ren (p_chems p))
+                            (map (fun e => (ren (fst e), option_map g (snd e))) (p_models p))])
+        | None => s
+        end
     | PChem f =>
         (* models that hold the chemical's CURRENT functor objects keep holding them if the objects survive the change
            (so they see data patched into them); objects that were replaced stay as they were *)
@@ -72,7 +91,13 @@ Section Pk.
   (* model index evaluates the functors the chemical has NOW *)
   Definition entry_tracks (cur : St) (e : nat * option St) : Prop :=
     match snd e with None => True | Some s => same (fst e) s cur = true end.
-  Definition no_chem (o : pop) : Prop := match o with PChem _ => False | _ => True end.
+  (* a round trip keeps the functor objects of the chemicals already in the store, and gives the loaded copy of
+     chemical c (number ren c) the copies of the objects c had *)
+  Definition load_ok (ren : nat -> nat) (g : St -> St) : Prop :=
+    (forall c s s', same c s s' = true -> same c s (g s') = true) /\
+    (forall c s s', same c s s' = true -> same (ren c) (g s) (g s') = true).
+  Definition no_chem (o : pop) : Prop :=
+    match o with PChem _ => False | PLoad _ ren g _ => load_ok ren g | _ => True end.
 End Pk.
 Arguments mkPkg {St}. Arguments p_ideal {St}. Arguments p_chems {St}. Arguments p_models {St}.
-Arguments PNew {St}. Arguments PSubset {St}. Arguments PExtended {St}. Arguments PIdeal {St}. Arguments PChem {St}.
+Arguments PNew {St}. Arguments PSubset {St}. Arguments PExtended {St}. Arguments PIdeal {St}. Arguments PChem {St}. Arguments PLoad {St}.
